@@ -656,12 +656,22 @@ pub fn excursion(rng: &mut Rng, ctx: &mut Ctx, p: &Profile) -> Vec<Op> {
                 ops.push(Op::Str("x".into()));
             }
         }
+        if rng.chance(35) && ctx.rows >= 2 {
+            // a scroll region set during the excursion (margins are shared by both screens)
+            let t = rng.range(1, ctx.rows - 1);
+            let b = rng.range(t + 1, ctx.rows);
+            ops.push(Op::Str(format!("\x1b[{};{}r", t, b)));
+        }
         if rng.chance(30) {
             let k = rng.weighted(&p.weights);
             ops.push(Op::Str(token(rng, ctx, k)));
         }
     }
     ops.push(Op::Str(format!("\x1b[?{}l", rng.pick(&modes))));
+    if rng.chance(40) {
+        // probe the region afterwards
+        ops.push(Op::Str(rng.pick(&["\x1b[999;1H\n\n", "\x1b[2S", "\x1b[1;1H\x1bM", "\x1b[?6h\x1b[1;1HQ\x1b[?6l"]).to_string()));
+    }
     ops
 }
 
